@@ -178,10 +178,15 @@ def object_histories(g, idx, res):
     flow = GP.draw_flow(g, arr)
     case = {"phys": ph, "grid": len(coords), "loads": desc, "flow": flow}
     out = []
+    res["object_starts"] = res.get("object_starts", {})
 
     # the object either starts the way the searches build it (one curve, then the bracketing family) or the way a user of the GHE
     # class builds it: with its own family of long-time curves (here 4 heights that are NOT the bracketing ones)
     own_family = bool(g.random() < 0.4)
+    # ... or with ONE long-time curve that was computed for another borehole radius (the case the radius correction exists for)
+    single_other_radius = (not own_family) and bool(g.random() < 0.5)
+    rb_factor = float(g.choice([0.8, 0.9, 1.15, 1.25]))
+    curve_seed = int(g.integers(0, 1 << 30))
     heights = sorted([hmin * 0.9, hmax * 1.05] + [float(round(h, 1)) for h in g.uniform(hmin * 1.1, hmax * 0.9, 2)]) if own_family else None
     case_family = heights
 
@@ -195,6 +200,11 @@ def object_histories(g, idx, res):
             gf = quiet(lambda: calc_g_func_for_multiple_lengths(borehole_spacing(bh, coords), heights, bh.r_b, bh.D, ghe.bhe.m_flow_borehole, pt,
                                                                  eskilson_log_times(), coords, fluid, pipe, grout, soil))
             ghe.gFunction = gf
+            return ghe
+        if single_other_radius:
+            ghe = GG.make_ghe(ph, coords, 100.0, flow, loads, 12, hmax=hmax, hmin=hmin, real_g=False, rgen=np.random.default_rng(1))
+            curve = GG.synthetic_g_lts(np.random.default_rng(curve_seed), len(coords))
+            ghe.gFunction = GG.make_gfunction({100.0: curve}, ghe.B_spacing, ghe.bhe.b.r_b * rb_factor, ghe.bhe.b.D, coords)
             return ghe
         ghe = GG.make_ghe(ph, coords, 100.0, flow, loads, 12, hmax=hmax, hmin=hmin, real_g=True)
         quiet(ghe.compute_g_functions)
@@ -213,10 +223,15 @@ def object_histories(g, idx, res):
         mx, mn = quiet(lambda: ghe.simulate(method=meth))
         return (kind, float(mx), float(mn), len(ghe.hp_eft), hashlib.sha256(np.asarray(ghe.hp_eft, dtype=float).tobytes()).hexdigest()[:16])
 
+    start_kind = "own-family" if own_family else ("single-curve-other-radius" if single_other_radius else "search-like")
+    res["object_starts"][start_kind] = res["object_starts"].get(start_kind, 0) + 1
+    case["start"] = start_kind
     n_ops = int(g.integers(2, 5))
     ops = []
     for _ in range(n_ops):
         k = str(g.choice(["hybrid", "hybrid", "hourly", "size", "recompute"]))
+        if single_other_radius and k == "recompute":
+            k = "hybrid"  # keep the single-curve family for the whole history
         if k == "size" and own_family and "recompute" not in [o[0] for o in ops]:
             k = "hybrid"  # sizing needs curves that bracket the height window
         ops.append((k, float(round(g.uniform(hmin, hmax), 2))))
@@ -304,6 +319,8 @@ def check(tier, seed):
         rep.count("single_candidate_scenarios", r.get("single_candidate_scenarios", 0))
         rep.count("designs_run", r["designs"])
         rep.count("object_histories", r["object_histories"])
+        for k_, v_ in r.get("object_starts", {}).items():
+            rep.count("object_start_" + k_, v_)
         for k, v in r["histories"].items():
             hist[k] = hist.get(k, 0) + v
         for nt in r["nontrivial"]:
